@@ -152,6 +152,9 @@ Qed.
 Lemma tot_le n t : (forall j, cnt (t j) <= 3) -> tot n t <= 3 * Z.of_nat n.
 Proof. intros H. induction n as [|m IH]; cbn [tot]; [lia|]. pose proof (H (Z.of_nat m)). lia. Qed.
 
+Lemma tot_zero n t : (forall j, 0 <= j < Z.of_nat n -> cnt (t j) = 0) -> tot n t = 0.
+Proof. induction n as [|m IH]; intros H; cbn [tot]; [reflexivity|]. rewrite IH by (intros; apply H; lia). rewrite H by lia. reflexivity. Qed.
+
 Lemma tot_empty n : tot n empty_table = 0.
 Proof. induction n as [|m IH]; cbn [tot]; [reflexivity|]. rewrite IH. reflexivity. Qed.
 
@@ -693,3 +696,158 @@ Proof.
   destruct Hok as ([t' L'] & E). rewrite E in Hf |- *. exists t', L'. split; [reflexivity|]. split; [reflexivity|exact Hf].
 Qed.
 End PNE4.
+
+(* ==== migration into a NON-EMPTY newest table (chained generations, throwing full getter), Open2N2 ====
+   HashSet only starts a growth with mCount <= capacity(new bucket array) (pvAddGrow's loop leaves with newCapacity > mCount; the generated
+   decision is C11's theorem C11_growth_decision_is_source), mCount counts the elements of ALL generations and capacity <= 3 * 2^newL.
+   Hypothesis below: (elements of all older generations) + (elements of the newest table) <= cap <= 3 * 2^newL. *)
+From C12 Require Import GensFind.
+
+Fixpoint gtot (gens : list (table * Z)) : Z :=
+  match gens with [] => 0 | (t, L) :: r => tot (Z.to_nat (2 ^ L)) t + gtot r end.
+
+Lemma tot_nonneg hash L t n : Tinv hash L t -> 0 <= tot n t.
+Proof. intros [Hwf _]. induction n as [|m IH]; cbn [tot]; [lia|]. pose proof (bwf_cnt _ (Hwf (Z.of_nat m))). lia. Qed.
+
+Lemma gtot_nonneg hash newL gens : gens_ok hash newL gens -> 0 <= gtot gens.
+Proof.
+  induction gens as [|[t L] r IH]; intros Hg; cbn [gtot]; [lia|]. inversion Hg as [|g gs Hg1 Hg2]; subst. cbn [fst snd] in Hg1.
+  destruct Hg1 as (_ & _ & Ht). pose proof (tot_nonneg hash L t (Z.to_nat (2 ^ L)) Ht). specialize (IH Hg2). lia.
+Qed.
+
+Section NE5.
+Variable hash : Z -> Z.
+Hypothesis hash_range : forall k, 0 <= hash k < 2 ^ 64.
+Variables (newL budget : Z).
+Hypothesis HnL63 : newL <= 63.
+Notation totN := (tot (Z.to_nat (2 ^ newL))).
+
+Lemma migrate_bucket_c_ok L i : 0 <= L -> L < newL -> 0 <= i < 2 ^ L -> forall fuel told tnew calls, Tinv hash L told -> Tinv hash newL tnew ->
+  tot (Z.to_nat (2 ^ L)) told + totN tnew <= 3 * 2 ^ newL -> (Z.to_nat (cnt (told i)) < fuel)%nat ->
+  match migrate_bucket_c hash fuel told tnew L newL i budget calls with
+  | Ok (told', tnew', _, _) => Tinv hash L told' /\ Tinv hash newL tnew' /\
+                               tot (Z.to_nat (2 ^ L)) told' + totN tnew' = tot (Z.to_nat (2 ^ L)) told + totN tnew
+  | _ => False
+  end.
+Proof.
+  intros HL HLn Hi. assert (HposL : 0 < 2 ^ L) by (apply pow2_pos; lia).
+  induction fuel as [|f IH]; intros told tnew calls Hold Hnew Hsum Hf; [lia|].
+  cbn [migrate_bucket_c]. pose proof (bwf_cnt _ (proj1 Hold i)) as [Hc _].
+  destruct (Z.eqb_spec (cnt (told i)) 0) as [Hz|Hnz]; [split; [assumption|split; [assumption|reflexivity]]|].
+  cbv zeta. destruct (getter_used (told i) i L newL (3 - cnt (told i)) && (budget <=? calls)); [split; [assumption|split; [assumption|reflexivity]]|].
+  assert (Hge : cnt (told i) <= tot (Z.to_nat (2 ^ L)) told).
+  { apply tot_ge; [|lia]. intros j. pose proof (bwf_cnt _ (proj1 Hold j)). lia. }
+  pose proof (relocate_item_count hash hash_range L newL told tnew i HL ltac:(lia) Hold Hnew Hi ltac:(lia) ltac:(lia)) as Hcnt.
+  pose proof (relocate_item_spec hash hash_range L newL told tnew i HL ltac:(lia) Hold Hnew Hi ltac:(lia)) as Hspec.
+  destruct (relocate_item hash told tnew L newL i) as [[told1 tnew1]| | |]; try contradiction.
+  destruct Hcnt as [Ht1 Ht2]. destruct Hspec as (Ho1 & Hn1 & Hc1 & _).
+  match goal with |- context [migrate_bucket_c hash f told1 tnew1 L newL i budget ?c] => specialize (IH told1 tnew1 c Ho1 Hn1 ltac:(lia) ltac:(lia));
+    destruct (migrate_bucket_c hash f told1 tnew1 L newL i budget c) as [[[[told2 tnew2] c2] th2]| | |]; try contradiction end.
+  destruct IH as (Ho2 & Hn2 & Hs2). split; [assumption|]. split; [assumption|lia].
+Qed.
+
+Lemma migrate_from_c_ok L : 0 <= L -> L < newL -> forall n i told tnew calls, Tinv hash L told -> Tinv hash newL tnew ->
+  tot (Z.to_nat (2 ^ L)) told + totN tnew <= 3 * 2 ^ newL -> 0 <= i -> i + Z.of_nat n <= 2 ^ L ->
+  match migrate_from_c hash n told tnew L newL i budget calls with
+  | Ok (told', tnew', _, _) => Tinv hash L told' /\ Tinv hash newL tnew' /\
+                               tot (Z.to_nat (2 ^ L)) told' + totN tnew' = tot (Z.to_nat (2 ^ L)) told + totN tnew
+  | _ => False
+  end.
+Proof.
+  intros HL HLn. induction n as [|m IH]; intros i told tnew calls Hold Hnew Hsum Hi Hin; cbn [migrate_from_c].
+  - split; [assumption|]. split; [assumption|reflexivity].
+  - pose proof (bwf_cnt _ (proj1 Hold i)) as [Hc _].
+    pose proof (migrate_bucket_c_ok L i HL HLn ltac:(lia) 4%nat told tnew calls Hold Hnew Hsum ltac:(lia)) as Hb.
+    destruct (migrate_bucket_c hash 4 told tnew L newL i budget calls) as [[[[told1 tnew1] c1] th]| | |]; try contradiction.
+    destruct Hb as (Ho1 & Hn1 & Hs1). destruct th; [split; [assumption|split; [assumption|exact Hs1]]|].
+    specialize (IH (i + 1) told1 tnew1 c1 Ho1 Hn1 ltac:(lia) ltac:(lia) ltac:(lia)).
+    destruct (migrate_from_c hash m told1 tnew1 L newL (i + 1) budget c1) as [[[[told2 tnew2] c2] th2]| | |]; try contradiction.
+    destruct IH as (Ho2 & Hn2 & Hs2). split; [assumption|]. split; [assumption|lia].
+Qed.
+
+(* the whole chain of older generations into the (possibly non-empty) newest table: never "Hash table is full" *)
+Lemma migrate_gens_ok : forall gens tnew calls, gens_ok hash newL gens -> Tinv hash newL tnew ->
+  gtot gens + totN tnew <= 3 * 2 ^ newL ->
+  match migrate_gens hash gens tnew newL budget calls with
+  | Ok (gens', tnew', _, _) => gtot gens' + totN tnew' = gtot gens + totN tnew
+  | _ => False
+  end.
+Proof.
+  induction gens as [|[told L] r IH]; intros tnew calls Hg Hnew Hsum; cbn [migrate_gens]; [reflexivity|].
+  inversion Hg as [|g gs Hg1 Hg2]; subst. cbn [fst snd] in Hg1. destruct Hg1 as (HL0 & HLn & Hold).
+  assert (Hpos : 0 < 2 ^ L) by (apply pow2_pos; lia). cbn [gtot] in Hsum |- *.
+  pose proof (gtot_nonneg hash newL r Hg2) as Hr0.
+  pose proof (migrate_from_c_ok L HL0 HLn (Z.to_nat (2 ^ L)) 0 told tnew calls Hold Hnew ltac:(lia) ltac:(lia) ltac:(lia)) as Hm.
+  pose proof (migrate_from_c_spec hash hash_range L newL budget HL0 ltac:(lia) (Z.to_nat (2 ^ L)) told tnew 0 calls ltac:(lia) ltac:(lia) Hold Hnew ltac:(intros; lia)) as Hsp.
+  destruct (migrate_from_c hash (Z.to_nat (2 ^ L)) told tnew L newL 0 budget calls) as [[[[told1 tnew1] c1] th]| | |]; try contradiction.
+  destruct Hm as (Ho1 & Hn1 & Hs1). destruct Hsp as (_ & Hz). destruct th; [cbn [gtot]; lia|].
+  (* the fully migrated generation told1 is dropped: it is empty *)
+  assert (H10 : tot (Z.to_nat (2 ^ L)) told1 = 0).
+  { apply tot_zero. intros j Hj. apply (Hz eq_refl). lia. }
+  specialize (IH tnew1 c1 Hg2 Hn1 ltac:(lia)).
+  destruct (migrate_gens hash r tnew1 newL budget c1) as [[[[r' t2] c2] th2]| | |]; try contradiction.
+  lia.
+Qed.
+
+(* with the spec: every key stored anywhere is found afterwards, and the run does not throw "Hash table is full" *)
+Theorem migrate_gens_find_ok gens tnew calls cap : 0 <= newL -> gens_ok hash newL gens -> Tinv hash newL tnew ->
+  gtot gens + totN tnew <= cap -> cap <= 3 * 2 ^ newL ->
+  exists gens' tnew' calls' thrown, migrate_gens hash gens tnew newL budget calls = Ok (gens', tnew', calls', thrown) /\
+    gens_ok hash newL gens' /\ Tinv hash newL tnew' /\ (thrown = false -> gens' = []) /\
+    gtot gens' + totN tnew' = gtot gens + totN tnew /\
+    (forall k, in_gens gens k \/ Present newL tnew k ->
+       exists r, find_gens ((tnew', newL) :: rev gens') k (hash k) = Ok (Some r) /\ gens_hit ((tnew', newL) :: rev gens') k r).
+Proof.
+  intros H0 Hg Hnew Hsum Hcap.
+  pose proof (migrate_gens_ok gens tnew calls Hg Hnew ltac:(lia)) as Hok.
+  pose proof (migrate_gens_spec hash hash_range newL budget HnL63 gens tnew calls Hg Hnew) as Hsp.
+  pose proof (migrate_gens_find hash hash_range newL budget ltac:(lia) gens tnew calls Hg Hnew) as Hf.
+  destruct (migrate_gens hash gens tnew newL budget calls) as [[[[gens' tnew'] c'] th]| | |]; try contradiction.
+  destruct Hsp as (Hg' & Ht' & _ & Hth). exists gens', tnew', c', th. split; [reflexivity|]. split; [exact Hg'|]. split; [exact Ht'|].
+  split; [exact Hth|]. split; [exact Hok|exact Hf].
+Qed.
+End NE5.
+
+(* ---- what the GENERATED growth decision of HashSet::pvAddGrow (Gen_HSGrow.pvAddGrow_loop0, HashSet.h:1156-1166: `while (true) {
+   newCapacity = CalcCapacity(1 << newLog, maxCount); if (newCapacity > mCount) break; ... ++newLog; }`) establishes: the chosen
+   capacity exceeds mCount, so after the new element is added mCount + 1 <= capacity ---- *)
+From C12 Require Import Gen_HSGrow.
+
+Lemma grow_decision bm (tc : Z -> Z -> Z) : forall fuel ht mc cap0 nl0 cap r,
+  pvAddGrow_loop0 bm tc fuel ht mc cap0 nl0 = Ok (None, (cap, r)) ->
+  mc < cap /\ cap = tc (wrapU 64 (Z.shiftl 1 r)) bm.
+Proof.
+  induction fuel as [|f IH]; intros ht mc cap0 nl0 cap r; [discriminate|].
+  rewrite pvAddGrow_loop0_eq. cbv zeta.
+  destruct (Z.gtb_spec (tc (wrapU 64 (Z.shiftl 1 nl0)) bm) mc).
+  - intros E. injection E as <- <-. split; [lia|reflexivity].
+  - destruct (Z.geb nl0 (wrapU 64 (wrapU 64 (8 * 8) - 1))); [discriminate|]. apply IH.
+Qed.
+
+Section NE6.
+Variable hash : Z -> Z.
+Hypothesis hash_range : forall k, 0 <= hash k < 2 ^ 64.
+
+(* pvAddGrow as a whole, Open2N2: the generated decision picks (cap, newL); the new element is added to the fresh newest table (so it
+   holds 1 element, or more if older relocations were interrupted before); all older generations are then relocated into it.  If mCount
+   counts the elements of all generations and CalcCapacity never exceeds the number of slots, the relocation cannot throw
+   "Hash table is full", whatever the full getter's exceptions do, and Find afterwards returns every key. *)
+Theorem migrate_gens_after_growth_decision (tc : Z -> Z -> Z) fuel ht mc cap0 nl0 cap newL budget gens tnew calls :
+  (forall bc, tc bc 3 <= 3 * bc) -> 0 <= newL <= 62 ->
+  pvAddGrow_loop0 3 tc fuel ht mc cap0 nl0 = Ok (None, (cap, newL)) ->
+  gens_ok hash newL gens -> Tinv hash newL tnew ->
+  gtot gens + tot (Z.to_nat (2 ^ newL)) tnew <= mc + 1 ->
+  exists gens' tnew' calls' thrown, migrate_gens hash gens tnew newL budget calls = Ok (gens', tnew', calls', thrown) /\
+    gens_ok hash newL gens' /\ Tinv hash newL tnew' /\ (thrown = false -> gens' = []) /\
+    gtot gens' + tot (Z.to_nat (2 ^ newL)) tnew' = gtot gens + tot (Z.to_nat (2 ^ newL)) tnew /\
+    (forall k, in_gens gens k \/ Present newL tnew k ->
+       exists r, find_gens ((tnew', newL) :: rev gens') k (hash k) = Ok (Some r) /\ gens_hit ((tnew', newL) :: rev gens') k r).
+Proof.
+  intros Htc HnL Hdec Hg Hnew Hsum.
+  destruct (grow_decision 3 tc fuel ht mc cap0 nl0 cap newL Hdec) as [Hlt Hcap].
+  assert (Hpow : 2 ^ newL <= 2 ^ 62) by (apply pow2_le_mono; lia). assert (Hpos : 0 < 2 ^ newL) by (apply pow2_pos; lia).
+  rewrite shl1_pow2 in Hcap by lia. rewrite (wrapU_small 64 (2 ^ newL)) in Hcap by (change (2 ^ 64) with (4 * 2 ^ 62); lia).
+  apply (migrate_gens_find_ok hash hash_range newL budget ltac:(lia) gens tnew calls cap ltac:(lia) Hg Hnew ltac:(lia)).
+  rewrite Hcap. apply Htc.
+Qed.
+End NE6.
